@@ -863,4 +863,86 @@ def specExpansionStatus (fuel : Nat) (env : Env) (e : Expr) : Nat × Env :=
   | (.ok _, env') => (0, env')
   | (_, env') => (1, env')
 
+/-! ## Vocabulary of the theorems -/
+
+/-- Trees of bash's grammar: `++`/`--` and assignments on names, `?` with its `:`, no zsh-only
+    operators.  (Binding order is a separate matter: `PrecOK`.) -/
+def plainBin (op : BinOp) : Bool :=
+  match op with
+  | .add | .sub | .mul | .quo | .rem | .pow | .eql | .gtr | .lss | .neq | .leq | .geq
+  | .and | .or | .xor | .shr | .shl | .comma => true
+  | _ => false
+
+def isNameWord : Expr → Bool
+  | .word n => validName n
+  | _ => false
+
+def WF : Expr → Bool
+  | .word _ => true
+  | .paren x => WF x
+  | .unary op post x =>
+    if op = .inc ∨ op = .dec then isNameWord x else !post && WF x
+  | .binary op x y =>
+    if op = .assgn ∨ (assignOp op).isSome then isNameWord x && WF y
+    else if op = .ternQuest then
+      match y with
+      | .binary .ternColon t f => WF x && WF t && WF f
+      | _ => false
+    else if op = .andL ∨ op = .orL then WF x && WF y
+    else plainBin op && WF x && WF y
+
+/-- Every word of the tree is a name or a valid numeric constant. -/
+def LitsOK : Expr → Prop
+  | .word w => validName w = true ∨ ∃ n, specNumber w = some n
+  | .paren x => LitsOK x
+  | .unary _ _ x => LitsOK x
+  | .binary _ x y => LitsOK x ∧ LitsOK y
+
+def IsBlanks (s : Bytes) : Prop := ∀ b ∈ s, isBlankB b = true
+
+/-- `IntLit v neg n`: the text `v` is blanks, an optional sign, a valid numeric constant of
+    magnitude `n`, blanks. -/
+inductive IntLit : Bytes → Bool → Nat → Prop
+  | pos (pre lit post : Bytes) (n : Nat) : IsBlanks pre → IsBlanks post →
+      specNumber lit = some n → IntLit (pre ++ lit ++ post) false n
+  | plus (pre lit post : Bytes) (n : Nat) : IsBlanks pre → IsBlanks post →
+      specNumber lit = some n → IntLit (pre ++ 43 :: lit ++ post) false n
+  | minus (pre lit post : Bytes) (n : Nat) : IsBlanks pre → IsBlanks post →
+      specNumber lit = some n → IntLit (pre ++ 45 :: lit ++ post) true n
+
+/-- `Reaches get d n neg k`: following at most `d` names from variable `n` ends in an unset/empty
+    variable (`k = 0`) or in an integer literal. -/
+inductive Reaches (get : Bytes → Bytes) : Nat → Bytes → Bool → Nat → Prop
+  | unset (n : Bytes) : get n = [] → Reaches get 0 n false 0
+  | lit (n : Bytes) (neg : Bool) (k : Nat) : IntLit (get n) neg k → Reaches get 0 n neg k
+  | step (d : Nat) (n : Bytes) (neg : Bool) (k : Nat) : validName (get n) = true →
+      Reaches get d (get n) neg k → Reaches get (d + 1) n neg k
+
+/-- "Every variable value is an integer literal or a name chain (at most 97 links) ending in one." -/
+def EnvOK (env : Env) : Prop :=
+  ∀ n, validName n = true → ∃ d neg k, d ≤ 97 ∧ Reaches env.get d n neg k
+
+/-- Targets of `op=`, `++`, `--` hold a literal or nothing (not a name). -/
+def LvalsOK (get : Bytes → Bytes) : Expr → Prop
+  | .word _ => True
+  | .paren x => LvalsOK get x
+  | .unary op _ x =>
+    if op = .inc ∨ op = .dec then
+      match x with
+      | .word n => get n = [] ∨ ∃ neg k, IntLit (get n) neg k
+      | _ => True
+    else LvalsOK get x
+  | .binary op x y =>
+    (if (assignOp op).isSome then
+      match x with
+      | .word n => get n = [] ∨ ∃ neg k, IntLit (get n) neg k
+      | _ => True
+    else LvalsOK get x) ∧ LvalsOK get y
+
+/-- Results on which the specification pronounces (inside the property's domain). -/
+def Res.inDomain : Res → Prop
+  | .err .outOfDomain => False
+  | .err .fuel => False
+  | _ => True
+
 end ShVerif.C20
